@@ -766,7 +766,14 @@ func clientStream(c *hctx.Ctx, n int) {
 	for i := 0; i < n; i++ {
 		v := 1 + c.R.Intn(4)
 		realm := []string{"TEST.GOKRB5", "EXAMPLE.COM", "R"}[c.R.Intn(3)]
-		f := ccFile{V: v, Princ: ccPrinc{NType: 1, Realm: realm, Comps: []string{"testuser1"}}}
+		// the default principal comes in every legal form, not only the plain user name
+		f := ccFile{V: v, Princ: []ccPrinc{
+			{NType: 1, Realm: realm, Comps: []string{"testuser1"}},
+			{NType: 10, Realm: realm, Comps: []string{"user@corp.example"}},
+			{NType: 3, Realm: realm, Comps: []string{"host", "client.test.gokrb5"}},
+			{NType: 2, Realm: realm, Comps: []string{"svc", "instance"}},
+			{NType: 1, Realm: realm, Comps: []string{"odd/name"}},
+		}[i%5]}
 		if v == 4 && c.R.Intn(2) == 0 {
 			f.Header = []ccHField{{1, genBytes(c, 8)}}
 		}
@@ -934,6 +941,26 @@ func clientStream(c *hctx.Ctx, n int) {
 		}
 		c.Case("cc_client", in, jv.Ok(sess, jv.L(qs...)))
 		check(c, good, "NewFromCCache holds exactly the written tickets and keys", "client:holds", detail, hexIn(file, nil))
+		// the client's own identity is the default principal as written (version 1 files store no name type)
+		wantNT := f.Princ.NType
+		if v == 1 {
+			wantNT = 0
+		}
+		samePrinc := func(pn types.PrincipalName) bool {
+			return pn.NameType == wantNT && sameStrs(pn.NameString, f.Princ.Comps)
+		}
+		var cn1, cn2, cn3 types.PrincipalName
+		var rl1, rl2 string
+		pp, _ := hctx.Guard(func() {
+			cn1, rl1 = cl.Credentials.CName(), cl.Credentials.Domain()
+			cr := r.cc.GetClientCredentials()
+			cn2, rl2 = cr.CName(), cr.Domain()
+			cn3 = r.cc.GetClientPrincipalName()
+		})
+		check(c, !pp && samePrinc(cn1) && samePrinc(cn2) && samePrinc(cn3) && rl1 == realm && rl2 == realm,
+			"the client built from the cache, GetClientCredentials and GetClientPrincipalName name the default principal exactly as written (name type and components)", "client:principal",
+			fmt.Sprintf("written type %d %q@%s; client %d %q@%s; credentials %d %q@%s; principal name %d %q", wantNT, f.Princ.Comps, realm, cn1.NameType, cn1.NameString, rl1, cn2.NameType, cn2.NameString, rl2, cn3.NameType, cn3.NameString), hexIn(file, nil))
+		c.Count(fmt.Sprintf("client:principal-form=%d", i%5))
 	}
 }
 
